@@ -132,11 +132,19 @@ func (m *MatchPostgres) Match(cx *layer4.Connection) (bool, error) {
 	// Try parsing Postgres Params
 	startup := &startupMessage{ProtocolVersion: code, Parameters: make(map[string]string)}
 	for {
+		if b.offset >= uint32(len(b.data)) {
+			// the zero byte that terminates the parameter list is missing
+			return false, nil
+		}
 		k := b.ReadString()
 		if k == "" {
 			break
 		}
 		startup.Parameters[k] = b.ReadString()
+	}
+	if b.offset != uint32(len(b.data)) {
+		// the terminator has to be the last byte of the message
+		return false, nil
 	}
 	// TODO(metafeather): match on param values: user, database, options, etc
 
